@@ -1,6 +1,7 @@
 #![allow(dead_code)]
 //! `simcheck`: deterministic simulation with fault injection for dbus2/zbus.
 mod corpus;
+mod corpus_gen;
 mod fakebus;
 mod framework;
 mod kernel;
